@@ -8,7 +8,7 @@ from common import Broken, Lock, Result, log
 MODULES = {
     "C13": "p_text", "C14": "p_text", "C19": "p_text",
     "C05": "p_ide", "C18": "p_ide",
-    "C15": "p_server", "C17": "p_project", "C11": "p_history", "C12": "p_race", "C16": "p_edits",
+    "C15": "p_server", "C17": "p_project", "C11": "p_history", "C09": "p_types", "C12": "p_race", "C16": "p_edits",
     "C10": "p_sweep", "C20": "p_sweep",
     "C06": "p_refs", "C07": "p_refs", "C08": "p_refs",
     "C01": "p_syntax", "C02": "p_syntax", "C03": "p_syntax", "C04": "p_syntax",
